@@ -324,9 +324,10 @@ fn parse_size(size: &str) -> Result<i64, ()> {
             .map_err(|_| ())?;
 
         match last_char.to_ascii_uppercase() {
-            'K' => Ok(number * 1024),
-            'M' => Ok(number * 1024 * 1024),
-            'G' => Ok(number * 1024 * 1024 * 1024),
+            // A size that does not fit is an error, not an overflow
+            'K' => number.checked_mul(1024).ok_or(()),
+            'M' => number.checked_mul(1024 * 1024).ok_or(()),
+            'G' => number.checked_mul(1024 * 1024 * 1024).ok_or(()),
             '0'..='9' => size.parse::<i64>().map_err(|_| ()),
             _ => Err(()),
         }
